@@ -215,7 +215,69 @@ func checkC13(c *Ctx) {
 		c.Check(ok, "status-captured", "loadbalancer.(*responseWriter).WriteHeader", p.Pos(wh.Pos()),
 			"the status passed to WriteHeader is what is stored in statusCode", "WriteHeader does not store its argument in statusCode (accounting and passive health checks see the wrong status)")
 	}
+	c.gaugeWriters()
 	lockDiscipline(c, func(k string) bool {
 		return strings.HasPrefix(k, "metrics.Metrics.") || strings.HasPrefix(k, "metrics.BackendMetrics.") || k == "loadbalancer.Backend.ActiveConnections"
 	})
+}
+
+// gaugeWriters: the in-flight gauge is changed only by ±1 in Increment/DecrementConnections, which
+// only proxyRequest calls; the metrics mirror always receives the backend's own atomic reading.
+func (c *Ctx) gaugeWriters() {
+	p := c.P
+	const field = "loadbalancer.Backend.ActiveConnections"
+	fr := p.Freshness()
+	var bad []string
+	nWrites, nCalls := 0, 0
+	for _, fn := range p.Funcs {
+		if !p.InScope(fn) {
+			continue
+		}
+		for _, a := range Accesses(fn) {
+			if a.Key != field || fr.IsFresh(a.FA.X, 0) {
+				continue
+			}
+			if a.Kind != "atomic" {
+				if a.IsWrite() {
+					bad = append(bad, p.InstrPos(a.Instr)+": "+p.FuncKey(fn)+" writes the in-flight gauge directly")
+				}
+				continue
+			}
+			ci := a.Instr.(ssa.CallInstruction)
+			name := CalleeName(ci)
+			if strings.HasPrefix(name, "sync/atomic.Load") {
+				continue
+			}
+			nWrites++
+			delta, isK := int64(0), false
+			if name == "sync/atomic.AddInt32" {
+				delta, isK = constInt(ci.Common().Args[1])
+			}
+			okFn := fn.Name() == "IncrementConnections" && delta == 1 || fn.Name() == "DecrementConnections" && delta == -1
+			if !isK || !okFn {
+				bad = append(bad, fmt.Sprintf("%s: %s changes the in-flight gauge with %s (only ±1 per request start/end keeps it equal to the number of in-flight requests; a reset or bulk change lets it go negative or stick above zero)", p.InstrPos(a.Instr), p.FuncKey(fn), name))
+			}
+		}
+		for _, ci := range callsIn(fn) {
+			n := CalleeName(ci)
+			if strings.HasSuffix(n, "Backend).IncrementConnections") || strings.HasSuffix(n, "Backend).DecrementConnections") {
+				nCalls++
+				if outermost(fn).Name() != "proxyRequest" {
+					bad = append(bad, p.InstrPos(ci)+": "+p.FuncKey(fn)+" changes a backend's in-flight gauge outside proxyRequest")
+				}
+			}
+			if strings.HasSuffix(n, "MetricsCollector).UpdateBackendConnections") {
+				args := CallArgs(ci)
+				if d := p.Desc(args[1], nil); !strings.HasPrefix(d, "call:(*github.com/0xReLogic/Helios/internal/loadbalancer.Backend).GetActiveConnections(") {
+					bad = append(bad, p.InstrPos(ci)+": "+p.FuncKey(fn)+" publishes a gauge value that is not the backend's own atomic reading: "+d)
+				}
+			}
+		}
+	}
+	if len(bad) == 0 {
+		c.Pass("gauge-writers", field, "-", fmt.Sprintf("%d atomic updates (±1 in Increment/DecrementConnections), %d call sites, all in proxyRequest", nWrites, nCalls))
+	} else {
+		c.Fail("gauge-writers", field, "-", bad[0], bad...)
+	}
+	c.Floor("gauge-writers", nWrites, 2, "gauge updates")
 }
